@@ -10,6 +10,7 @@ from common import err_name
 from harness import keys as K
 from harness import jwscases as J
 from harness import jwssign as S
+from harness import jwecases as E
 
 RULE = ("for every JWS algorithm and every JWE alg x a sample of encs: keys of every type, curve and size, with use absent/sig/enc, "
         "key_ops absent / containing / not containing the operation, private or public-only, offered to sign/verify (5 "
@@ -85,8 +86,49 @@ def describe(kn, params, private):
     return {"key": kn, "params": params, "private": private}
 
 
+def rsa_sizes(ctx):
+    """RSA key encryption needs a modulus of at least 2048 BITS: keys of 1031, 2040, 2041, 2047 bits (they only ever
+    arrive by import, as JWK or PEM) are refused by every RSA algorithm and serialization; 2048, 2049, 3071 bits work
+    and round-trip."""
+    from joserfc import jwe
+    from joserfc.jwk import RSAKey
+    from harness import keycases as KC
+    keys = KC.special_rsa_keys() + [(1024, K.key("rsa1024")), (2048, K.key("rsa2048"))]
+    for bits, key in keys:
+        forms = [("jwk", key), ("pem", RSAKey.import_key(key.as_pem(private=True))), ("public-jwk", RSAKey.import_key(key.as_dict(private=False)))]
+        for form, k in forms:
+            for alg in ("RSA1_5", "RSA-OAEP", "RSA-OAEP-256"):
+                for ser in ("compact", "flat", "general"):
+                    try:
+                        if ser == "compact":
+                            tok = jwe.encrypt_compact({"alg": alg, "enc": "A128GCM"}, b"secret", k, algorithms=E.ALL_NAMES)
+                        else:
+                            cls = jwe.FlattenedJSONEncryption if ser == "flat" else jwe.GeneralJSONEncryption
+                            obj = cls({"enc": "A128GCM"}, b"secret")
+                            obj.add_recipient({"alg": alg}, k)
+                            tok = jwe.encrypt_json(obj, None, algorithms=E.ALL_NAMES)
+                        out = "ok"
+                    except Exception as e:  # noqa: BLE001
+                        out, tok = err_name(e), None
+                    ctx.count("rsa-size", (bits, form, alg, ser), True, f"{bits}:{'ok' if out == 'ok' else 'refused'}")
+                    if out == "ok" and bits < 2048:
+                        ctx.report(f"{alg} encrypted a content key with a {bits}-bit RSA key ({form}, {ser})",
+                                   {"bits": bits, "alg": alg, "serialization": ser, "key_form": form, "jwk": key.as_dict(private=False)}, f"rsa-size:{ser}:too-short-used")
+                    elif out != "ok" and bits >= 2048:
+                        ctx.report(f"{alg} refused a {bits}-bit RSA key ({form}, {ser}): {out}", {"bits": bits, "alg": alg, "serialization": ser}, f"rsa-size:{ser}:suitable-refused")
+                    elif out == "ok":
+                        try:
+                            r = jwe.decrypt_compact(tok, key, algorithms=E.ALL_NAMES) if ser == "compact" else jwe.decrypt_json(tok, key, algorithms=E.ALL_NAMES)
+                            ok = r.plaintext == b"secret"
+                        except Exception:  # noqa: BLE001
+                            ok = False
+                        if not ok:
+                            ctx.report(f"{alg} with a {bits}-bit RSA key does not round-trip", {"bits": bits, "alg": alg, "serialization": ser}, f"rsa-size:{ser}:roundtrip")
+
+
 def run(ctx):
     made_for_unsuitable(ctx)
+    rsa_sizes(ctx)
     rng = ctx.rng
     jws_part(ctx)
     jwe_part(ctx)
